@@ -72,6 +72,31 @@ def run(ck):
             lv, _ = walk.explore(mk, [('A', 'acquire')], leaf, max_leaves=1500 if not ck.thorough() else 12000, dup_budget=dupb, drop_budget=dropb)
             ck.count('exhaustive.leaves', lv)
             ck.seen('exhaustive.kinds', ('A', 'initial', dupb, dropb))
+    # ... the same when the responder demands a COOKIE first and / or refuses the first Diffie-Hellman group: every copy of a COOKIE or INVALID_KE_PAYLOAD answer may
+    # arrive twice and late; the initiator repeats its request ONCE per answer (Message ID 0, one request outstanding) and the handshake completes
+    for vi_, (cookie_, ke_) in enumerate(((True, False), (False, True), (True, True))):
+        for dupb, dropb in ((2, 0), (1, 1)):
+            n += 1
+            if ck.mine(n):
+                def mk2():
+                    kw_ = dict(ike_a={'encr': ['aes256'], 'integ': ['sha256'], 'prf': ['sha256'], 'dh': ['14', '19']}, ike_b={'encr': ['aes256'], 'integ': ['sha256'], 'prf': ['sha256'], 'dh': ['19']}) if ke_ else {}
+                    sc = walk.Scenario(base + n, mons, kw_, handshake=False)
+                    if cookie_:
+                        sc.b.ctl.cookie_threshold = 0
+                    return sc
+
+                def leaf2(sc, path):
+                    leaf(sc, path)
+                    ck.count('initial_with_retries.leaves')
+                    if not sc.sim.case.get('dropped') and not any(a_[0] == 'drop' for a_ in sc.sim.case['actions']):
+                        ok_ = any(x.state.name == 'ESTABLISHED' and x.child_sas for x in sc.a.ctl.ike_sas) and any(x.state.name == 'ESTABLISHED' and x.child_sas for x in sc.b.ctl.ike_sas)
+                        ck.count('initial_with_retries.lossless_leaves')
+                        if not ok_:
+                            ck.violation(f"handshake-with-{'cookie' if cookie_ else ''}{'+' if cookie_ and ke_ else ''}{'invalid-ke' if ke_ else ''}-round-not-completed-although-nothing-was-lost",
+                                         {'a': [x.state.name for x in sc.a.ctl.ike_sas], 'b': [x.state.name for x in sc.b.ctl.ike_sas], 'actions': sc.sim.case['actions'][:30]}, sc.sim.case)
+                lv, _ = walk.explore(mk2, [('A', 'acquire')], leaf2, max_leaves=600 if not ck.thorough() else 6000, dup_budget=dupb, drop_budget=dropb)
+                ck.count('exhaustive.leaves', lv)
+                ck.seen('exhaustive.kinds', ('A', f'initial+{vi_}', dupb, dropb))
     # (2) random walks with late replays
     nw = 700 if not ck.thorough() else 120000
     rng = ck.rng('walks', ck.shard[0])
@@ -327,6 +352,7 @@ def direct_replays(ck, seed, k):
 
 def verdict(ck):
     c = ck.counters
+    ck.floor('schedules of initial exchanges with COOKIE / INVALID_KE_PAYLOAD rounds under duplication in which nothing was lost', c['initial_with_retries.lossless_leaves'], 300)
     ck.floor('older requests fed again to the IkeSa entry point and dropped', c['direct_replays.older_request_dropped'], 20)
     ck.floor('requests closing hundreds of CHILD_SAs whose copies were answered identically', c['mass_delete.copies_answered_identically'], 1)
     ck.floor('answered exchanges on one long-lived IKE_SA', c['long_lived.exchanges'], 250)
